@@ -29,8 +29,8 @@ RULE = ("random call histories of 1-6 calls after an initial fit, over {update(u
         "histories, in some only at the first predict, in some never before the first refitting "
         "update (known finding); forecasters: leaf double, NaiveForecaster(last/mean) [in Coq], "
         "ensemble / multiplexer / pipeline / stacking composites of these [in Coq when the horizon is "
-        "given at fit], PolynomialTrendForecaster, ExponentialSmoothing, ThetaForecaster [oracle "
-        "only]. non-trivial = at least two calls succeeded "
+        "given at fit], pipelines over the real Detrender, PolynomialTrendForecaster, "
+        "ExponentialSmoothing, ThetaForecaster [oracle only]. non-trivial = at least two calls succeeded "
         "and at least one carried data; distinct = distinct canonical JSON case")
 TRUSTED = [
     "the translators translator/sktimebase_c10.py + translator/fcskel.py (fail closed) and the "
@@ -50,6 +50,10 @@ MODELLED = [
     "override), _predict_moving_cutoff with _detached_cutoff inlined at the `with`, update_predict (base "
     "class and window-forecaster override, incl. the defaults of SlidingWindowSplitter read from "
     "_split.py); exogenous X specialised to None, return_pred_int to False",
+    "also regenerated (translator/transupdate_c10.py): Detrender.update over an abstract nested trend "
+    "forecaster and (Conditional)Deseasonalizer.update over an abstract fitted state; pipelines over the "
+    "real Detrender / Deseasonalizer are run by the oracle only (nested trend coefficients and "
+    "seasonal component compared before / after an update with update_params=False)",
     "the forecasting kernel of a leaf is abstract in the theorems (lfit/lpred); the Coq correspondence "
     "covers the leaf double, NaiveForecaster(last/mean, sp=1) and (through coq/C10/Comp.v over the C09 "
     "model) the ensemble / pipeline / multiplexer / stacking composites of them when the horizon is "
@@ -77,8 +81,11 @@ NOT_RUNNABLE = ["fbprophet adapter (_update_X caller): fbprophet is not installe
 
 def translate(repo):
     """regenerate build/coq/C10/Site.v from sktime/forecasting/base/_sktime.py (fail closed)"""
-    from translator import sktimebase_c10
-    return sktimebase_c10.translate(repo)
+    from translator import sktimebase_c10, transupdate_c10
+    files = dict(sktimebase_c10.translate(repo))
+    # + the update methods of the series transformers C10 anchors (Detrender, Deseasonalizer)
+    files["C10/Site.v"] += transupdate_c10.translate(repo)
+    return files
 
 
 def _build(spec):
@@ -138,6 +145,10 @@ def _params(f):
         return ["selected", _params(f._forecaster)]
     if getattr(f, "steps_", None) is not None:                   # pipeline
         return ["steps", [_params(e) for _, e in f.steps_]]
+    if getattr(f, "forecaster_", None) is not None:              # Detrender: its fitted trend model
+        return ["nested", _params(f.forecaster_)]
+    if getattr(f, "seasonal_", None) is not None:                # Deseasonalizer: seasonal component
+        return ["seasonal", [float_ratio(v) for v in f.seasonal_]]
     for a in ("p_", "window_length_", "c_"):
         if hasattr(f, a):
             return [a, float_ratio(getattr(f, a))]
@@ -637,6 +648,23 @@ def gen_cases(rng, tier):
                 if o[0] != "predict":
                     o[1] += shift
         c["kind"] = "composite"
+        cases.append(c)
+    # pipelines over the REAL Detrender / Deseasonalizer (Detrender.update hands update_params to a
+    # nested trend forecaster, Deseasonalizer.update changes nothing):
+    # update_params=False must leave the nested trend model's coefficients alone (oracle only)
+    for i in range(36 if tier == "quick" else 360):
+        tags = c09._Tags()
+        ts = [{"t": "detrend", "g": tags.new()}]
+        if i % 3 == 1:
+            ts.append(c09._gen_aff(rng, tags))
+        elif i % 3 == 2:
+            ts.insert(0, c09._gen_aff(rng, tags))
+        if i % 4 == 3:          # Deseasonalizer -> Detrender chain (its update changes nothing)
+            ts.insert(0, {"t": "deseason", "g": tags.new(), "sp": 2})
+        spec = {"t": "pipe", "ts": ts, "f": c09._gen_leaf(rng, tags, 8)}
+        c = _gen_history(rng, spec, tier, fh_mode="fit", max_ops=4, allow_fit=False,
+                         allow_default_cv=False)
+        c["kind"] = "real-pipe"
         cases.append(c)
     return cases
 
